@@ -3,7 +3,9 @@ use crate::engine::Property;
 
 pub mod c09;
 pub mod c10;
+pub mod c16;
+pub mod c17;
 
 pub fn all() -> Vec<Property> {
-    vec![c09::property(), c10::property()]
+    vec![c09::property(), c10::property(), c16::property(), c17::property()]
 }
